@@ -21,22 +21,22 @@ CHECKS = {
          "Value compared with 'v1_'+tag+'_'+hex(BLAKE3(canonical form)) for complete ACGT and protein-alphabet spaces; hash partition compared with the brute-force orbit partition in one process; every invalid single byte per type, unknown types and double-stranded proteins must be rejected.",
          "BLAKE3 collision resistance outside the explored set; documented alphabets are the specification of 'accepted'", "5 C04/C05"),
  "C06": ("exploration", "reference-model monitor, complete for the table clause",
-         "All 25 tables x 64 codons x 8 casings and the start/stop lists are compared with an independently transcribed NCBI code (standard code + differences); random strings are split at every codon boundary; strings returned earlier are re-inspected after later calls.",
+         "All 25 tables x 64 codons x 8 casings and the start/stop lists are compared with an independently transcribed NCBI code (standard code + differences); random strings are split at every codon boundary; strings returned earlier are re-inspected after later calls; every table is verified again after it went through the library's JSON writer and reader and after Compromise/Add/OptimizeTable/Optimize ran on tables from GetCodonTable.",
          "trusts the harness transcription of the NCBI genetic codes (agrees with the tree on all 1600 entries, so a one-letter slip on either side is a disagreement)", "5 C06"),
  "C07": ("exploration", "reference-model monitor + Hoeffding-bounded frequency test",
          "Optimize on all 25 default tables and on tables re-weighted with forced 0 / exactly-10% / just-above weights: length, back-translation by the table's own assignment, eligibility of every emitted codon in exact integers, errors (not crashes) for unencodable residues, generator outputs, in-place re-weighting histories, and codon frequencies over 10^5 (quick) / 10^6 (thorough) draws per amino acid against a Hoeffding band.",
          "proportionality is statistical: false-alarm probability < 1e-9 per run, resolution = band half-width reported in evidence", "5 C07"),
  "C08": ("exploration", "history monitor against a value-semantics model (invariant at every step boundary) + race detector",
-         "Every operation sequence up to length 4 on two table ids of different genetic codes (complete DFS; add also across codes) and random histories of length 5..8 on three ids; after every step every live table is read back and compared with the value model; a mismatch is attributed to known finding K1 only if it equals the aliasing defect model. Counting clause on deep copies; 16 goroutines re-weight tables of distinct ids under -race.",
+         "Every operation sequence up to length 4 on two table ids of different genetic codes (complete DFS; add also across codes) and random histories of length 5..8 on three ids; after every step every live table is read back and compared with the value model; a mismatch is attributed to known finding K1 only if it equals the aliasing defect model. Counting clause on deep copies, incl. series of same-length sequences in freshly allocated strings; in every child process the first use of the package is one goroutine per default table requesting it at the same moment; 16 goroutines re-weight tables of distinct ids under -race; a call parked for good is decided by goroutine states (stall detector).",
          "the receiver of OptimizeTable is not inspected again (documented in-place mutation); compromise values are C18's subject", "5 C08"),
  "C09": ("exploration", "result-set monitor against rings known by construction and a sequential enumeration, under the race detector with GOMAXPROCS and scheduler perturbation; bounded-progress (allocation budget, all-blocked snapshot, resident-memory cap) monitor for termination",
-         "Designed pools (1..6 junctions, 1..3 alternatives per slot, flipped fragments, shuffled input, dead-end decoys incl. ones entering the ring) are ligated by CircularLigate and, rendered as linear/circular BsaI/BbsI/BtgZI carrier parts, by GoldenGate at GOMAXPROCS 1, 2, 16 with >= 20 calls each under -race; the returned set of molecules (own canonical form) must equal the designed set on every call, no molecule twice; arrival orders observed are counted. Termination pools (lollipops, shared junctions, random overhang graphs) must return within an allocation budget with every simple ring and only closed walks.",
+         "Designed pools (1..6 junctions, 1..3 alternatives per slot, flipped fragments, shuffled input, dead-end decoys incl. ones entering the ring) are ligated by CircularLigate and, rendered as linear/circular BsaI/BbsI/BtgZI carrier parts, by GoldenGate at GOMAXPROCS 1, 2, 16 with >= 20 calls each under -race; the returned set of molecules (own canonical form) must equal the designed set on every call, no molecule twice; arrival orders observed are counted. Calls are also made after a call on a prefix of the same slice and after a reaction with a second enzyme on the same parts. Termination pools (lollipops, shared junctions, back edges, random overhang graphs) must return within an allocation budget with every simple ring and otherwise only closed walks that use each supplied fragment at most as often as supplied.",
          "termination restated as bounded progress over allocated bytes and goroutine states, not wall-clock; schedules are sampled, not enumerated", "5 C09"),
  "C10": ("exploration", "reference-model monitor (modular-arithmetic Type IIS geometry) with complete rotation sweeps of small plasmids",
          "CutWithEnzyme / CutWithEnzymeByName (directional) on generated layouts (20..3000 bases, 0..6 sites of either orientation, BsaI, BbsI, BtgZI and custom non-palindromic enzymes, linear and circular, random letter case, sites whose cut would need bases beyond the ends of linear parts) compared as fragment multisets with an independent geometric model; every rotation of every generated circular plasmid of 20..300 bases is digested and compared with the same multiset.",
          "model cross-checked per case against a naive linear evaluator on a safely linearised rotation and against the generator's list of placed sites; layouts outside the property's stated restrictions are redrawn, not judged", "5 C10"),
  "C13": ("exploration", "round-trip and re-layout monitor + producer/consumer event-sequence monitor under the race detector",
-         "Record lists (sequences to 300,000 letters incl. the 64 KiB boundary lengths) through Build -> Parse, Write -> Read, gzip -> ReadGz and through re-layouts by the harness's own writer (wrap width, blank lines, ';' comments, CRLF); ParseConcurrent runs in a harness goroutine with channel capacities 0..1000, PRNG-stalled consumers and dribbling readers: the received sequence must equal the list and the channel must be closed exactly once; race reports are violations.",
+         "Record lists (sequences to 300,000 letters incl. the 64 KiB boundary lengths) through Build -> Parse, Write -> Read, gzip -> ReadGz and through re-layouts by the harness's own writer (wrap width, blank lines, ';' comments, CRLF); ParseConcurrent runs in a harness goroutine with channel capacities 0..1000, PRNG-stalled consumers and dribbling readers: the received sequence must equal the list and the channel must be closed exactly once; an order-stress series (short records, capacities 0..8, a consumer spinning briefly per record); a parser parked for good is decided by goroutine states; race reports are violations.",
          "closed-exactly-once decided without blocking after the producer returned; wall-clock watchdog only yields inconclusive", "5 C13"),
  "C15": ("exploration", "round-trip monitor with INSDC oracle for feature sequences",
          "Generated annotated sequences (every field populated, location trees to depth 4, empty/absent collections, non-ASCII and <>& text) and parser outputs over generated GenBank and GFF files go through JSON -> polyjson.Parse and Write -> Read; every field is compared, feature sequences are re-evaluated by the INSDC oracle after reading, and GenBank/GFF text built after the round trip must equal the direct build; earlier values are re-inspected after later calls.",
@@ -57,7 +57,7 @@ CHECKS = {
          "Generated format-31 listings (blank- or tab-indented supplier table, 0..300 records, empty fields) and the distributed sample read by the harness's own reader are compared field by field with rebase.Parse/Read; Export must unmarshal back to the same map and bytes returned by earlier Export calls are re-inspected after later calls.",
          "nil/empty/[\"\"] are equal for empty list fields", "5 C16"),
  "C17": ("exploration", "definition-based monitor over random and adversarial calls",
-         "Every De Bruijn order 1..9 (quick) / 1..11 (thorough) is checked window by window; barcode lists from random and adversarially ordered ban / filter lists are checked for length, substring-ness, n-mer disjointness, bans, reverse complements and filters.",
+         "Every De Bruijn order 1..11 is checked window by window, orders 1..10 are requested again in turn; barcode lists from random and adversarially ordered ban / filter lists are checked for length, substring-ness, n-mer disjointness, bans, reverse complements and filters; one request in four follows another request on the same ban and filter slices.",
          "reference De Bruijn sequence for the substring clause is poly's own output validated in the same run", "5 C17"),
  "C18": ("exploration", "reference-model monitor with exact integer/rational arithmetic",
          "25 codes x table pairs re-weighted from constructed coding sequences x a cut-off grid containing 0, 1, their neighbours and realised shares +/- 1.5/10000: sums, means (+/-1 on integer-scaled shares), zeroing below the cut-off, symmetry, range errors, unchanged genetic code and inputs, and Optimize on the compromise table; each pair is then re-weighted in place and combined again.",
